@@ -10,8 +10,8 @@ for suf in "$@"; do
     git -C /repo worktree add -q $wt HEAD || continue
     git -C $wt apply "$PWD/$d/patch.diff" || { echo "$s NOAPPLY"; git -C /repo worktree remove --force $wt; continue; }
     line="$s"
-    for c in $prop C01; do
-      [ "$c" = "C01" ] && [ "$prop" = "C01" ] && continue
+    checks="$prop C01"; [ "$prop" = "C01" ] && checks="C01"
+    for c in $checks; do
       FB_REPO=$wt ./check $c --tier quick > /tmp/score_$$.txt 2>&1; e=$?
       line="$line $c=exit$e/$(grep -c '^VIOLATION' /tmp/score_$$.txt)viol"
     done
